@@ -328,8 +328,9 @@ pub fn tall_tree_case(hid: Hid, w: u32, h: u32, counter: u64, seed: u64) -> Vec<
             if sig.len() != m.hss_sig_len(&params) {
                 v.push(Viol::new(format!("C01:tall-tree:length:h={}", h), format!("signature of a [h{} w{}] key has {} bytes, the RFC formula gives {}", h, w, sig.len(), m.hss_sig_len(&params))));
             }
-            if out.cb_args.last() != Some(&m.make_blob(counter + 1, &params, &kseed)) {
-                v.push(Viol::new(format!("C01:tall-tree:successor:h={}", h), "the successor handed over is not counter+1"));
+            let want = m.parse_blob(&blob).map(|i| m.successor(&i)).unwrap_or_default();
+            if out.cb_args.last() != Some(&want) {
+                v.push(Viol::new(format!("C01:tall-tree:successor:h={}", h), "the successor handed over is not counter+1 (the wiped key after the last leaf)"));
             }
         }
         Res::Err => v.push(Viol::new(format!("C01:tall-tree:sign-refused:h={}", h), format!("a [h{} w{}] key on {} refused to sign at counter {}", h, w, hid.name(), counter))),
